@@ -2,8 +2,10 @@
 //! All parameters come from environment variables: the code under test
 //! (`Config::new`) parses the *process* argv with clap, so argv stays empty.
 
+mod gen;
 mod hashseed;
 mod loader_sim;
+mod pipeline;
 mod prng;
 mod report;
 
@@ -45,6 +47,10 @@ fn main() {
         eprintln!("oalsim: OALSIM_PROP not set");
         std::process::exit(2)
     });
+    if prop == "GENSTATS" {
+        std::thread::Builder::new().stack_size(64 << 20).spawn(genstats).unwrap().join().unwrap();
+        return;
+    }
     if let Some(path) = env("OALSIM_REPLAY") {
         let text = std::fs::read_to_string(&path).unwrap_or_else(|e| {
             eprintln!("oalsim: cannot read {path}: {e}");
@@ -102,4 +108,45 @@ fn main() {
         eprintln!("oalsim: cannot write {out}: {e}");
         std::process::exit(2)
     });
+}
+
+/// Development aid: acceptance statistics of the program generator.
+fn genstats() {
+    use std::collections::BTreeMap;
+    let seed = env_u64("OALSIM_SEED", 1);
+    let n = env_u64("OALSIM_TO", 1000);
+    let show = env_u64("OALSIM_SHOW", 3);
+    let mut ok = 0;
+    let mut fails: BTreeMap<String, (u64, String)> = BTreeMap::new();
+    let mut feats: BTreeMap<&'static str, u64> = BTreeMap::new();
+    for i in env_u64("OALSIM_FROM", 0)..n {
+        if env("OALSIM_TRACE").is_some() { eprintln!("run {i}"); }
+        let mut rng = prng::Rng::stream(seed, "GEN", i, "workload");
+        let cfg = gen::GenCfg::default();
+        let ast = gen::generate(&mut rng, &cfg);
+        let layout = gen::Layout { seed: i, multibyte: (i % 3) as u8, crlf: vec![i % 2 == 0; 8], comments: true };
+        let mods = gen::render(&ast, &layout);
+        let files: BTreeMap<String, String> = mods.iter().map(|m| (m.path.clone(), m.text.clone())).collect();
+        if env("OALSIM_DUMP").is_some() { for m in &mods { eprintln!("--- {}\n{}", m.path, m.text); } }
+        match pipeline::compile_to_yaml("file:///w/", &files, "main.oal") {
+            Ok(_) => {
+                ok += 1;
+                for f in ast.features.iter() { *feats.entry(f).or_default() += 1; }
+                if i < show { for m in &mods { println!("--- {} (run {i})\n{}", m.path, m.text); } }
+            }
+            Err(f) => {
+                let key = format!("{:?}: {}", f.phase, f.message.chars().take(80).collect::<String>());
+                let e = fails.entry(key).or_insert((0, String::new()));
+                e.0 += 1;
+                if e.1.is_empty() {
+                    e.1 = mods.iter().map(|m| format!("--- {}\n{}\n", m.path, m.text)).collect();
+                }
+            }
+        }
+    }
+    println!("accepted {ok}/{n}");
+    for (k, (c, ex)) in fails.iter() {
+        println!("FAIL x{c}: {k}\n{ex}");
+    }
+    println!("features: {feats:?}");
 }
